@@ -1001,9 +1001,15 @@ func (q *Queue) emitDSN(meta *QueueMetadata, header textproto.Header, failedRcpt
 		return
 	}
 
+	committing := false
 	defer func() {
 		if err != nil {
 			dl.Error("failed to enqueue DSN", err, "dsn_id", dsnID)
+			// A delivery is ended once: nothing is left to abort after
+			// Commit, whether it failed or not.
+			if committing {
+				return
+			}
 			if err := dsnDelivery.Abort(msgCtx); err != nil {
 				dl.Error("failed to abort DSN delivery", err, "dsn_id", dsnID)
 			}
@@ -1022,6 +1028,7 @@ func (q *Queue) emitDSN(meta *QueueMetadata, header textproto.Header, failedRcpt
 		bodyTask.End()
 		return
 	}
+	committing = true
 	if err = dsnDelivery.Commit(bodyCtx); err != nil {
 		bodyTask.End()
 		return
